@@ -21,7 +21,10 @@
      Fire p c          the body of the timer runs (delete the pending entry, error result)
      Clean p           DeviceLocal.RemoveRemoteDevice(ski p) -> CleanWriteApprovalCaches
      AddCb             AddWriteApprovalCallback
-     Probe             read the bookkeeping maps and the function data (state projection)
+     Probe             read the bookkeeping maps and the function data (state projection: the pending
+                       entries, the tally entries of writes of connected peers, the data; a tally entry
+                       left behind for a removed connection has no effect, the stack drops it with the
+                       SKI's map at the next clean-up of that SKI, and it is not projected)
 
    Identifiers: a peer (SKI) is a number, a write is the pair (peer, msgCounter); the value
    a write carries is unique to it, so the function data is "the write applied last".
@@ -103,9 +106,10 @@ Inductive obs :=
 | DataNone                           (* Probe: the function data was never written *)
 | Sent (p k : N)                     (* any other datagram written to peer p (never expected) *)
 | Drift                              (* the function data changed without a data-change event (never expected) *)
-| Stuck (k : N).                     (* a call into the stack did not return within the watchdog's bound (never expected);
+| Stuck (k : N)                      (* a call into the stack did not return within the watchdog's bound (never expected);
                                         k = kind of step: 1 inbound write, 2 verdict lookup, 3 verdict commit, 5 timer body,
                                         6 RemoveRemoteDevice, 7 bookkeeping accessor *)
+| Panicked (k : N).                  (* a call into the stack panicked (recovered by the runner; never expected); k as for Stuck *)
 
 Definition E_TIMEOUT : N := 1.       (* model.ErrorNumberTypeGeneralError, NewErrorTypeFromString *)
 Definition E_DENIED : N := 7.        (* the error number the denying callbacks of the harness pass *)
@@ -277,7 +281,8 @@ Definition step_gen (f : fixes) (s : st) (o : op) : st * list obs :=
        [PendingLeft p (left_of p pd tl)])
   | Probe =>
       (s, map (fun w => PendingEntry (fst w) (snd w)) (pending s) ++
-          map (fun x => TallyEntry (fst (fst x)) (snd (fst x)) (N.of_nat (snd x))) (tally s) ++
+          map (fun x => TallyEntry (fst (fst x)) (snd (fst x)) (N.of_nat (snd x)))
+              (filter (fun x => negb (gone (fst (fst x)) (dz s))) (tally s)) ++
           [match data s with Some w => DataIs (fst w) (snd w) | None => DataNone end])
   end.
 
@@ -307,7 +312,7 @@ Definition run_pinned := run_gen pinned.
         7                 Probe
    obs: 0 Skipped, 1 cb p c Presented, 2 p c e Result, 3 p c Applied, 4 Parked, 5 Returned,
         6 TimerFired, 7 NoTimer, 8 p n PendingLeft, 9 p c PendingEntry, 10 p c n TallyEntry,
-        11 p c DataIs, 12 DataNone, 13 p k Sent, 14 Drift, 15 k Stuck.
+        11 p c DataIs, 12 DataNone, 13 p k Sent, 14 Drift, 15 k Stuck, 16 k Panicked.
    Within one operation the observations are listed in ascending order of this encoding. *)
 Definition parse_op (l : list Z) : option op :=
   match l with
@@ -340,6 +345,7 @@ Definition print_obs (o : obs) : list Z :=
   | Sent p k => [13; Zn p; Zn k]
   | Drift => [14]
   | Stuck k => [15; Zn k]
+  | Panicked k => [16; Zn k]
   end.
 
 Definition parse_obs (l : list Z) : option obs :=
@@ -360,5 +366,6 @@ Definition parse_obs (l : list Z) : option obs :=
   | [13; p; k] => Some (Sent (Nz p) (Nz k))
   | [14] => Some Drift
   | [15; k] => Some (Stuck (Nz k))
+  | [16; k] => Some (Panicked (Nz k))
   | _ => None
   end.
